@@ -585,7 +585,7 @@ fn main() {
             json!({"part": "C (Tensorize of synthetic TrainItems)", "first_item": tensorize_case(TASKS[t], &[&syn.pools[t][m]], SYNTH_PAD, SYNTH_TARGET_PAD),
                    "batches": format!("this item followed by 0..{} further items from the pool of {}", syn.max_batch[t] - 1, syn.pools[t].len())})
         } else {
-            json!({"error": "no such unit", "units": units})
+            json!({"part": "extra phases after the main enumeration (long texts, mixed aggregation, spelled special tokens), in that order", "offset_after_main_units": n - units})
         };
         println!("{d}");
         return;
@@ -641,6 +641,39 @@ fn main() {
                     check_sparse(&mut run, sm, &[&y, &x]);
                 }
             }
+        }
+    }
+    // texts that spell the configured special tokens — every one of them, so that a text can begin
+    // with the whole prefix sequence or end with the whole suffix sequence of a config
+    {
+        let shorts_n = tu_verif::enumerate::strings(&SIGMA, 2).len() as u64;
+        let long_units = tu_verif::enumerate::threshold_lengths(run.pick(8, 10)).len() as u64;
+        const SPELL: [&str; 6] = ["<unk>", "<bos>", "<eos>", "<pad>", "a", "<"];
+        let max = run.pick(4, 5);
+        let texts = tu_verif::enumerate::strings(&SPELL, max);
+        run.bounds.insert("spelled_special_tokens_phase".into(), json!(format!("every string of at most {max} symbols over {SPELL:?} ({} strings) x every config x ignore_special_tokens; each alone and batched with the one-symbol text", texts.len())));
+        let chunk = 64usize;
+        for (k, part) in texts.chunks(chunk).enumerate() {
+            if !run.unit(units + long_units + shorts_n + k as u64) {
+                continue;
+            }
+            for s in part {
+                for sub in &subs {
+                    for ign in [false, true] {
+                        run.evaluations += 1;
+                        if let Some(item) = check_tokenisation(&mut run, sub, s, ign) {
+                            if !ign && s.len() > 1 {
+                                run.nontrivial += 1;
+                            }
+                            check_batch(&mut run, sub, &[&item]);
+                            if let Some(sh) = check_tokenisation(&mut run, sub, "a", ign) {
+                                check_batch(&mut run, sub, &[&item, &sh]);
+                            }
+                        }
+                    }
+                }
+            }
+            run.tick();
         }
     }
     // long texts: symbol counts around the powers of two a size threshold would sit at; every
